@@ -383,6 +383,24 @@ def _fail_pass(ctx, R, NR, b):
                 ebi not in (b.reachable_from(some, avoid=[pb]) - {some} if some != pb else set())
             ctx.check(ok, "NFA-FAIL", b, "every-edge-linked-and-enqueued:" + tag, b.loc(wb),
                       "on every path through the edge loop body the child's fail link is written and the child enqueued")
+    # the chain walk restarts at the parent's fail link for EVERY child: the walk variable is modified by the walk,
+    # so its initialisation from s.fail must lie inside the per-edge loop body
+    cids = [(vw, bi, tj) for vw, bi, c, tj in fv.calls(lambda c: c.name == "child_id") if vw is root]
+    if len(cids) == 1 and len(sws_e := switches_on(root, lambda d: d[0] == "discr" and d[1][0] == "call" and d[1][3] == esite)) == 1:
+        from .search import ttj_state_local
+        wl = ttj_state_local(b, cids[0][2])
+        some_e, none_e = opt_arms(sws_e[0][1])
+        inits = []
+        if wl is not None:
+            for d in b.defs().get(wl, []):
+                if d[0] == "rv":
+                    t = pnorm(root.T.rvalue(d[3]))
+                    if m(F(S, "fail", NS), t):
+                        inits.append(d[1])
+        ctx.check(bool(inits) and all(b.edge_guards((sws_e[0][0], some_e), ib) for ib in inits) and
+                  not b.reaches(ebi, cids[0][1], avoid=set(inits)), "NFA-FAIL", b, "chain-restarts-per-child:" + tag, b.loc(cids[0][1]),
+                  "for every child the search for its fail link must start again at the parent's fail link (the walk variable is "
+                  "advanced by the walk and must be re-initialised inside the edge loop)")
     # guards of the constant results (ROOT only when the chain reached ROOT; DEAD only on a DEAD test)
     _const_result_guards(ctx, NR, b, fv, leftmost, tag)
     # the chain walk must advance: fail_id := states[fail_id].fail inside the inner loop
